@@ -8,6 +8,7 @@ import (
 	"fmt"
 	"go/types"
 	"math"
+	"sort"
 	"strconv"
 	"strings"
 	"time"
@@ -254,6 +255,19 @@ func registerIntrinsics(in *Interp) {
 		delete(in.env, concStr(a[0]))
 		return Iface{}
 	}
+	// the model environment holds exactly the variables the harness set
+	I["os.Environ"] = func(in *Interp, fr *frame, a []Val) Val {
+		keys := make([]string, 0, len(in.env))
+		for k := range in.env {
+			keys = append(keys, k)
+		}
+		sort.Strings(keys)
+		out := make([]Str, 0, len(keys))
+		for _, k := range keys {
+			out = append(out, strConcat(ConcStr(k+"="), in.env[k]))
+		}
+		return in.strSliceVal(out)
+	}
 	I["os.Exit"] = func(in *Interp, fr *frame, a []Val) Val {
 		panic(pathEnd{endExit, "os.Exit"})
 	}
@@ -461,13 +475,21 @@ func registerIntrinsics(in *Interp) {
 	I["time.ParseDuration"] = func(in *Interp, fr *frame, a []Val) Val {
 		s := a[0].(Str).norm()
 		if s.sym != nil {
-			panic(in.unsupported("time.ParseDuration on symbolic text"))
+			return notHandled // the real parser is interpreted
 		}
 		d, err := time.ParseDuration(s.s)
 		if err != nil {
 			return Tuple{in.tt.BV(64, 0), in.newError(fr, ConcStr(err.Error()))}
 		}
 		return Tuple{in.tt.BV(64, uint64(d)), Iface{}}
+	}
+	// time.quote (error text only) forks per byte; the text is inserted unescaped
+	I["time.quote"] = func(in *Interp, fr *frame, a []Val) Val {
+		s := a[0].(Str).norm()
+		if s.sym == nil {
+			return notHandled
+		}
+		return strConcat(strConcat(ConcStr("\""), s), ConcStr("\""))
 	}
 	I["(time.Duration).String"] = func(in *Interp, fr *frame, a []Val) Val {
 		d := a[0].(*Term)
